@@ -24,6 +24,18 @@ class SchedPrng:
         return int(n).to_bytes(32, "big")
 
 
+def phantom_ticket_stream(case):
+    """tickets for records the voting system never produced; never runs dry (a mutated repository may
+    create more phantoms than the generator planned for)"""
+    import hashlib
+    for t in case["phantom_tickets"]:
+        yield t
+    k = 0
+    while True:
+        yield int.from_bytes(hashlib.sha256(f"phantom-ticket/{case['numbering']['seed']}/{k}".encode()).digest()[:8], "big") >> 2
+        k += 1
+
+
 def manifest_df(batches, shortfall):
     """what prep_manifest produces: string columns, cumulative counts, phantom batch for the shortfall
     (built here because the manifest is the storage stub's artefact; prep_manifest itself is C17's subject)"""
@@ -154,7 +166,7 @@ class AuditRun:
         if self.polling:
             total = int(self.manifest["Total Ballots"].sum())
             tick = []
-            pt = iter(case["phantom_tickets"])
+            pt = phantom_ticket_stream(case)
             for c in case["cards"]:
                 tick.append(case["tickets"][c["id"]])
             while len(tick) < total:
@@ -167,7 +179,7 @@ class AuditRun:
             if case["numbering"]["mode"] == "sha256":
                 self.call("assign_sample_nums", ns.CVR.assign_sample_nums, self.cvr_list, ns.SHA256(case["numbering"]["seed"]))
             else:
-                pt = iter(case["phantom_tickets"])
+                pt = phantom_ticket_stream(case)
                 nums = [case["tickets"][c.id] if c.id in case["tickets"] else next(pt) for c in self.cvr_list]
                 self.call("assign_sample_nums", ns.CVR.assign_sample_nums, self.cvr_list, SchedPrng(nums))
             nums = [c.sample_num for c in self.cvr_list]
